@@ -6,6 +6,7 @@ package symexec
 import (
 	"fmt"
 	"go/types"
+	"strconv"
 
 	"golang.org/x/tools/go/ssa"
 )
@@ -174,6 +175,11 @@ func callIntrinsic(fr *frame, fn *ssa.Function, args []value) value {
 		}
 		ta, tb := x.lift(a), x.lift(b)
 		return x.lower(tt.Or(tt.FCmp("fp.eq", ta, tb), tt.And(tt.FIsNaN(ta), tt.FIsNaN(tb))), types.Bool)
+	case "vsymDecimal":
+		if c, ok := args[0].(int64); ok {
+			return strconv.FormatInt(c, 10)
+		}
+		return numStr{args[0]}
 	case "vsymTimeNs":
 		// vsymTimeNs(ns int64) time.Time
 		return timeVal{ns: args[0]}
